@@ -31,6 +31,10 @@ def gen_workspace(rng, *, max_channels=3, max_samples=3, max_bins=4, mods=None,
     use_lumi = "lumi" in mods and rng.random() < lumi_prob / 0.35 * 0.6
     shapefactor_bins = None
     extra_nf = f"{name_prefix}k_bkg"
+    if rng.random() < 0.1:
+        # a free normalisation factor (possibly the POI of a later measurement) whose own name looks like the names
+        # ROOT generates for constrained / bin-wise parameters
+        extra_nf = rng.choice(["alpha_S", "gamma_k_0", "alpha_" + name_prefix + "k"])
     have_mu = False
     # channel names are NOT in sorted order in general (pyhf sorts internally; order bugs hide otherwise)
     cnames = rng.sample(["ch0", "ch1", "ch2", "SR", "CR", "zlast", "Afirst"], nchan) if rng.random() < 0.6 else [f"ch{ci}" for ci in range(nchan)]
